@@ -141,8 +141,17 @@ def make_stream(rng, dn, known, grav, F, B, init_kind, dt_kind, cid):
     else:
         s.p0 = s.v0 = s.R0 = None
     s.covs = None
-    if rng.random() < 0.33:
+    r_ = rng.random()
+    if r_ < 0.25:
         s.covs = (float(10.0 ** rng.uniform(-8, -1)), float(10.0 ** rng.uniform(-8, -1)))
+    elif r_ < 0.6:
+        # the documented three-element form: different covariance on the three axes (one axis may be noise-free)
+        g_ = 10.0 ** rng.uniform(-6, -1, 3)
+        a_ = 10.0 ** rng.uniform(-6, -1, 3)
+        if rng.random() < 0.4:
+            g_[int(rng.integers(3))] = 0.0
+        s.covs = (torch.as_tensor(g_).to(dtype), torch.as_tensor(a_).to(dtype))
+        s.per_axis_cov = True
     return s
 
 
@@ -150,7 +159,7 @@ def build(s, reset=False, with_init=True, row=None):
     """Fresh module for stream s (row: the module for batch row `row` alone)."""
     kw = {"gravity": float(s.grav), "reset": reset}
     if s.covs is not None:
-        kw["gyro_cov"], kw["acc_cov"] = s.covs
+        kw["gyro_cov"], kw["acc_cov"] = [c.clone() if isinstance(c, torch.Tensor) else c for c in s.covs]
     if with_init and s.init_kind == "shared":
         kw.update(pos=s.p0[0, 0].clone(), rot=lie.lt("SO3", s.R0.tensor()[0, 0].clone(), s.dtype), vel=s.v0[0, 0].clone())
     elif with_init and s.init_kind == "batch":
@@ -202,7 +211,7 @@ def regime_of(s):
 
 def wit_of(s, extra=None):
     w = {"case": s.cid, "dtype": s.dn, "known_rot": s.known, "gravity": s.grav, "F": s.F, "B": s.B,
-         "init": s.init_kind, "dt_kind": s.dt_kind, "noise_cov": s.covs}
+         "init": s.init_kind, "dt_kind": s.dt_kind, "noise_cov": [c.tolist() if isinstance(c, torch.Tensor) else c for c in s.covs] if s.covs else None}
     if s.F * s.B <= 12:
         w.update(dt=s.dt.double().tolist(), gyro=s.gyro.double().tolist(), acc=s.acc.double().tolist(),
                  rot=s.rot.tensor().double().tolist() if s.known else None,
